@@ -114,6 +114,14 @@ def check(run):
         for b in bad:
             run.violation("sequential call history replay: " + b["why"], {"kind": "calls_behaviour", "behaviour": h, "index": 100000 + idx, "discrepancy": b})
     run.extra["sequential_histories_replayed"] = len(hs)
+    # no verifier modifies its arguments: a sample (every 8th batch) of the three verifiers' TLC enumerations, comparing deep snapshots
+    from .. import delegation_engine, root_engine, verify_engine
+    for mod, cfg, eng, what in (("Verify", "Verify_emit_quick.cfg", verify_engine, "verify_signable"), ("Root", "Root_emit_quick.cfg", root_engine, "verify_root"),
+                                ("Delegation", "Delegation_emit_quick.cfg", delegation_engine, "verify_delegation")):
+        rx = run.tlc(mod, cfg, raw_cases=True, expect_cases=True, timeout=3000)
+        for o in eng.replay(run, rx, opts={"every": 8 if quick else 2}):
+            if o.get("mutated"):
+                run.violation(f"{what} modified an object passed to it (observed outcome {o['observed']})", {"kind": what, **{k: v for k, v in o.items() if k != "case"}})
     # histories over related inputs (both modes), judged call by call
     ce.related_input_histories(run, 600 if quick else 10000)
     # line-level pre-emption schedules
